@@ -502,9 +502,9 @@ def boot_margin_checks(run, case, tables, props):
                                   predicate="boot_margin_is_ratio", signature="C02:boot-margin", replay_case=case_json(case))
 
 
-def stage1(run, case, props):
+def stage1(run, case, props, **run_kw):
     """run the implementation; returns a record with the driver ops this case needs"""
-    res = run_case(case)
+    res = run_case(case, **run_kw)
     L = light(case)
     run.case(L, True)
     run.count(case["pi_method"])
